@@ -428,3 +428,33 @@ Definition par_run (choices : list nat) (d : list V) (chunks : list (list nat)) 
 Definition threads_done (ths : list tstate) : bool :=
   forallb (fun ts => match fst ts with [] => true | _ => false end) ths.
 End OMP.
+
+(* ------------------------------------------------------------------------------------------------------- *)
+(** * Specification predicates (used by SplitCommProofs.v and props/Properties_C06.v) *)
+Require Import Permutation.
+
+(** On every communicator all members issue the same sequence of (kind, root); and no rank issues a collective on
+    a communicator it does not belong to. *)
+Definition collectives_match (col : colouring) (P : nat) (trace : nat -> list event) : Prop :=
+  (forall cm r1 r2, In r1 (members col P cm) -> In r2 (members col P cm) -> proj cm (trace r1) = proj cm (trace r2)) /\
+  (forall r e, r < P -> In e (trace r) -> In r (members col P (fst e))).
+
+(** every colour 0..ncolors-1 has a rank and an element; all colours are in range *)
+Definition colours_well_formed (col : colouring) (P ncomp : nat) : Prop :=
+  let nc := ncolors P ncomp in
+  (forall c, c < nc -> exists r, r < P /\ pcol col r = c) /\
+  (forall r, r < P -> pcol col r < Nat.max 1 nc) /\
+  (forall k, k < ncomp -> ecol col k < nc) /\
+  (forall c, c < nc -> exists k, k < ncomp /\ ecol col k = c).
+
+(** what the data theorems need of a colouring: the colour of every element has a rank *)
+Definition colours_inhabited (col : colouring) (P ncomp : nat) : Prop :=
+  forall k, k < ncomp -> exists r, r < P /\ pcol col r = ecol col k.
+
+(** the table is the sum over all parts, each exactly once: the value a single-rank run returns *)
+Definition is_full_sum (np : nat) (t : table) : Prop :=
+  exists l, t = TData l /\ Permutation l (seq 0 np).
+
+(** the job map of component k names ranks of the communicator the component is computed on (size n) --
+    C16 final_state: dmap s j = Some w with w in the pool *)
+Definition jm_in_range (jmk : nat -> nat) (np n : nat) : Prop := forall p, p < np -> jmk p < n.
